@@ -1,7 +1,8 @@
 (* C16 -- packaging of the conjugacy / finite-termination theorems (Proofs/C16_Conj.v) for Props/C16.v *)
 From CV Require Import Base.Tac Base.LinAlg Base.QcLin Model.C16_Solve Proofs.C16_CG Proofs.C16_Prox Proofs.C16_Spec Proofs.C16_Mono
      Proofs.C16_Grad Proofs.C16_Dim Proofs.C16_Conj Proofs.C16_LMfull.
-From Coq Require Import Reals Lra Ring.
+From Coq Require Import Reals Lra Ring QArith Qcanon.
+From CV Require Import Base.Cmp Proofs.C16_Wrap.
 Local Open Scope R_scope.
 
 Section Pkg.
@@ -73,3 +74,56 @@ Proof.
            O1 O2 O3 O4 O5 O6 O7 b shift Hb PD x0 Hx0 maxit x k Hmax H).
 Qed.
 End Pkg.
+
+(* ---------- the non-vacuity examples of Props/C16.v (computations live here, behind Qed) ---------- *)
+Local Close Scope R_scope.
+Lemma nonvacuous_ex :
+  let A := qmat [[1; 0]; [0; 2]; [1; 1]]%Q in
+  let b := qvec [1; 2; 3]%Q in
+  let shift := qc (1 # 2) in
+  let x0 := qvec [1; -1]%Q in
+  linear_op Qc Qcplus Qcmult 2 3 (qmatvec A) (qmattvec 2 A) /\
+  (exists x, q_cgls_solve (qmatvec A) (qmattvec 2 A) b shift x0 10 (qc (1 # 1000000)) = (x, 2%nat) /\
+             qnormsq (ne_residual 2 A b shift x) = 0%Qc /\ x <> x0) /\
+  q_pg_map (qmatvec (qmat ((1%Q :: nil) :: nil))) (qmattvec 1 (qmat ((1%Q :: nil) :: nil))) (qvec (2%Q :: nil)) (q_prox (PxL1 1)) 1%Qc (qvec (1%Q :: nil)) = qvec (1%Q :: nil).
+Proof.
+  cbn zeta. split; [ | split].
+  - apply (matrix_linear_op Qc 0%Qc 1%Qc Qcplus Qcmult Qcminus Qcopp Qcrt 2 (qmat [[1; 0]; [0; 2]; [1; 1]]%Q)).
+    repeat constructor.
+  - eexists. split; [vm_compute; reflexivity|]. split; [vm_compute; reflexivity | vm_compute; discriminate].
+  - vm_compute. reflexivity.
+Qed.
+
+Lemma monotone_nonvacuous_ex :
+  let A := qmat [[1; 0]; [0; 2]; [1; 1]]%Q in
+  let b := qvec [1; 2; 3]%Q in
+  let x0 := qvec [1; -1]%Q in
+  adjoint_pair Qc 0%Qc Qcplus Qcmult Qcminus 2 3 (qmatvec A) (qmattvec 2 A) /\
+  (forall a c, phiQ c <> 0%R -> phiQ (a / c)%Qc = (phiQ a / phiQ c)%R) /\
+  forall j, (j < 2)%nat ->
+    (0 < phiQ (delta_of Qc 0%Qc Qcplus Qcmult (qmatvec A) (qc (1 # 2))
+                 (cg_p Qc (cgls_iter Qc 0%Qc Qcplus Qcmult Qcminus Qcdiv qc_leb qc_eps (qmatvec A) (qmattvec 2 A) (qc (1 # 2)) j
+                             (cgls_init Qc 0%Qc Qcplus Qcmult Qcminus (qmatvec A) (qmattvec 2 A) b (qc (1 # 2)) x0)))))%R.
+Proof.
+  cbn zeta. split; [ | split].
+  - apply (matrix_adjoint_pair Qc 0%Qc 1%Qc Qcplus Qcmult Qcminus Qcopp Qcrt 2 (qmat [[1; 0]; [0; 2]; [1; 1]]%Q)). repeat constructor.
+  - exact phiQ_div.
+  - intros j Hj. apply Rnot_le_lt. intros H. rewrite <- phiQ_0 in H. apply phiQ_leb in H.
+    destruct j as [|[|j]]; [vm_compute in H; discriminate | vm_compute in H; discriminate | lia].
+Qed.
+
+Lemma convergence_nonvacuous_ex :
+  let A := qmat [[1; 0]; [0; 2]; [1; 1]]%Q in
+  let b := qvec [1; 2; 3]%Q in
+  let x0 := qvec [1; -1]%Q in
+  adjoint_pair Qc 0%Qc Qcplus Qcmult Qcminus 2 3 (qmatvec A) (qmattvec 2 A) /\
+  pos_def Qc 0%Qc Qcplus Qcmult phiQ 2 (qmatvec A) (qc (1 # 2)) /\
+  exists x, q_cgls_solve (qmatvec A) (qmattvec 2 A) b (qc (1 # 2)) x0 7 0%Qc = (x, 2%nat) /\
+            qnormsq (ne_residual 2 A b (qc (1 # 2)) x) = 0%Qc.
+Proof.
+  cbn zeta. split; [ | split].
+  - apply (matrix_adjoint_pair Qc 0%Qc 1%Qc Qcplus Qcmult Qcminus Qcopp Qcrt 2 (qmat [[1; 0]; [0; 2]; [1; 1]]%Q)). repeat constructor.
+  - apply (pos_def_of_positive_shift Qc 0%Qc 1%Qc Qcplus Qcmult Qcminus Qcopp qc_leb phiQ embedding_Qc).
+    apply Rnot_le_lt. intros H. rewrite <- phiQ_0 in H. apply phiQ_leb in H. vm_compute in H. discriminate.
+  - eexists. split; [vm_compute; reflexivity|]. vm_compute. reflexivity.
+Qed.
